@@ -1,6 +1,7 @@
 package sim
 
 import (
+	"sort"
 	"crypto/sha256"
 	"fmt"
 	"time"
@@ -18,6 +19,9 @@ type WireFinding struct {
 type WireOptions struct {
 	AllowStatelessReset bool // undecryptable short-header datagrams from an endpoint may be stateless resets
 	SkipFlowControl     bool
+	// AliveUntil > 0: both connections were observed alive (no error) at this virtual time; enables the
+	// "ACK due no later than max_ack_delay after arrival" check for packets that arrived well before it.
+	AliveUntil time.Duration
 	// Connections: how many connections share the world (packet-number reuse is checked per key owner)
 }
 
@@ -223,9 +227,137 @@ func (w *World) WireCheck(opt WireOptions) []WireFinding {
 		}
 	}
 
+	// ---- C07(c): every ack-eliciting 1-RTT packet that arrives in order on an established, living connection is
+	// covered by an ACK frame its receiver sends no later than max_ack_delay after the arrival (ACK-only packets are
+	// neither congestion controlled nor paced).
+	if opt.AliveUntil > 0 {
+		out = append(out, ackDueCheck(log, opt.AliveUntil)...)
+	}
+
 	// ---- C04(c): senders stay within the limits delivered to them.
 	if !opt.SkipFlowControl {
 		out = append(out, w.flowControlCheck(log)...)
+	}
+	return out
+}
+
+const (
+	maxAckDelay = 25 * time.Millisecond // protocol.MaxAckDelay: the delay the endpoints themselves use
+	ackSlack    = 3 * time.Millisecond
+)
+
+func ackDueCheck(log []*Record, aliveUntil time.Duration) []WireFinding {
+	var out []WireFinding
+	// the connection is established on both sides once an intact HANDSHAKE_DONE has reached the client
+	established := time.Duration(-1)
+	firstClose := aliveUntil
+	for _, rec := range log {
+		pkts, _ := rec.Pkts.([]*Packet)
+		for _, p := range pkts {
+			for _, f := range p.Frames {
+				if f.Name == refwire.NameConnectionClose && rec.T < firstClose {
+					firstClose = rec.T
+				}
+				if f.Name == refwire.NameHandshakeDone && p.Kind == "1rtt" && rec.Dir == "s2c" && !rec.Forged && !rec.Mutated && len(rec.Dlv) > 0 {
+					if established < 0 || rec.Dlv[0] < established {
+						established = rec.Dlv[0]
+					}
+				}
+			}
+		}
+	}
+	if established < 0 {
+		return nil
+	}
+	type ackEv struct {
+		t      time.Duration
+		ranges []refwire.AckRange
+	}
+	type arrival struct {
+		t   time.Duration
+		pn  uint64
+		ae  bool
+		seq int
+	}
+	for _, dir := range []string{"c2s", "s2c"} {
+		var acks []ackEv // ACK frames sent by the receiver of dir
+		var arr []arrival
+		for _, rec := range log {
+			if rec.Forged {
+				continue
+			}
+			pkts, _ := rec.Pkts.([]*Packet)
+			for _, p := range pkts {
+				if p.Kind != "1rtt" {
+					continue
+				}
+				if rec.Dir != dir {
+					for _, f := range p.Frames {
+						if f.Name == refwire.NameAck {
+							acks = append(acks, ackEv{rec.T, f.AckRanges})
+						}
+					}
+				} else if !rec.Mutated && len(rec.Dlv) > 0 {
+					arr = append(arr, arrival{rec.Dlv[0], p.PN, p.AckEliciting, rec.Seq})
+				}
+			}
+		}
+		sort.SliceStable(arr, func(i, j int) bool { return arr[i].t < arr[j].t })
+		sort.SliceStable(acks, func(i, j int) bool { return acks[i].t < acks[j].t })
+		// Datagrams handed over in the same virtual instant are processed in an order the log does not show
+		// (one timer per datagram), so "in order" can only be decided for a packet that is alone in its instant.
+		sameInstant := map[time.Duration]int{}
+		for _, rec := range log {
+			if rec.Dir == dir {
+				for _, t := range rec.Dlv {
+					sameInstant[t]++
+				}
+			}
+		}
+		largest := int64(-1)
+		ai := 0
+		for i, a := range arr {
+			inOrder := int64(a.pn) > largest && sameInstant[a.t] == 1
+			// the whole instant counts as received before anything later
+			for j := i; j < len(arr) && arr[j].t == a.t; j++ {
+				if int64(arr[j].pn) > largest {
+					largest = int64(arr[j].pn)
+				}
+			}
+			if !a.ae || !inOrder || a.t < established || a.t+maxAckDelay+ackSlack+50*time.Millisecond > firstClose {
+				continue
+			}
+			for ai < len(acks) && acks[ai].t < a.t {
+				ai++
+			}
+			covered := false
+			for k := ai; k < len(acks) && acks[k].t <= a.t+maxAckDelay+ackSlack && !covered; k++ {
+				for _, rg := range acks[k].ranges {
+					if rg.Smallest <= a.pn && a.pn <= rg.Largest {
+						covered = true
+						break
+					}
+				}
+			}
+			if !covered {
+				next := time.Duration(-1)
+				for k := ai; k < len(acks) && next < 0; k++ {
+					for _, rg := range acks[k].ranges {
+						if rg.Smallest <= a.pn && a.pn <= rg.Largest {
+							next = acks[k].t
+							break
+						}
+					}
+				}
+				var after []string
+				for k := ai; k < len(acks) && len(after) < 4; k++ {
+					after = append(after, fmt.Sprintf("%v:%v", acks[k].t, acks[k].ranges))
+				}
+				if len(out) < 4 {
+					out = append(out, WireFinding{"C07/wire/ack-overdue", fmt.Sprintf("[next ACKs of the receiver: %v] ack-eliciting 1-RTT packet pn %d (%s, datagram #%d) arrived in order at %v on an established connection that stayed alive; its receiver sent no ACK covering it until %v (first covering ACK: %v; -1ns = never), i.e. later than max_ack_delay %v after the arrival", after, a.pn, dir, a.seq, a.t, a.t+maxAckDelay+ackSlack, next, maxAckDelay)})
+				}
+			}
+		}
 	}
 	return out
 }
